@@ -32,8 +32,8 @@ KERNELS_OF = {
 NP_OF = {
     'C14': [('UtilsTests', ['is_quadratic', 'is_transition_matrix', 'is_ergodic', 'is_fuzzy_ergodic', 'ergodic_mask'])],
     'C04': [('UtilsTests', ['is_ergodic', 'ergodic_mask']), ('MsmNorm', ['row_normalize_matrix', 'equilibrium_population'])],
-    'C01': [('StateTrajInit', ['init']), ('MsmNorm', ['row_normalize_matrix']), ('MsmEstimate', ['estimate_markov_model_perm', 'estimate_markov_model_default'])],
-    'C03': [('StateTrajHS', ['_estimate_markov_model']), ('MsmNorm', ['row_normalize_matrix'])],
+    'C01': [('StateTrajEst', ['estimate_markov_model']), ('StateTrajInit', ['init']), ('MsmNorm', ['row_normalize_matrix']), ('MsmEstimate', ['estimate_markov_model_perm', 'estimate_markov_model_default'])],
+    'C03': [('StateTrajHS', ['_estimate_markov_model']), ('MsmNorm', ['row_normalize_matrix']), ('LumpedEst', ['estimate_markov_model'])],
     'C09': [('MsmTests', ['_calc_times', '_chapman_kolmogorov_test', '_chapman_kolmogorov_test_md'])],
     'C19': [('PlotCkTest', ['_split_array'])],
     'C05': [('MdCoringApi', ['dynamical_coring'])],
@@ -55,7 +55,7 @@ SOURCE_OF = {'MsmMsm': 'msm/msm.py', 'MdCorrections': 'md/corrections.py', 'MdTi
              'MsmTimescales': 'msm/timescales.py', 'MdComparison': 'md/comparison.py', 'UtilsUtils': 'utils/_utils.py',
              'UtilsTests': 'utils/tests.py', 'MsmNorm': 'msm/msm.py', 'PlotCkTest': 'plot/_ck_test.py', 'MsmTests': 'msm/tests.py',
              'StateTrajHS': 'statetraj.py', 'MsmCummat': 'msm/timescales.py', 'MsmTimes': 'msm/timescales.py', 'StateTrajBase': 'statetraj.py',
-             'UtilsRelabel': 'utils/_utils.py', 'StateTrajInit': 'statetraj.py', 'StateTrajAcc': 'statetraj.py', 'LumpedAcc': 'statetraj.py', 'MsmEstimate': 'msm/msm.py', 'MsmMcmcApi': 'msm/timescales.py', 'UtilsFiltering': 'utils/filtering.py', 'IoLimits': 'io.py',
+             'UtilsRelabel': 'utils/_utils.py', 'StateTrajInit': 'statetraj.py', 'StateTrajAcc': 'statetraj.py', 'LumpedAcc': 'statetraj.py', 'StateTrajEst': 'statetraj.py', 'LumpedEst': 'statetraj.py', 'MsmEstimate': 'msm/msm.py', 'MsmMcmcApi': 'msm/timescales.py', 'UtilsFiltering': 'utils/filtering.py', 'IoLimits': 'io.py',
              'MdCompareApi': 'md/comparison.py', 'MdTimesApi': 'md/timescales.py', 'MdCoringApi': 'md/corrections.py'}
 ATOL = 1e-8
 G = 1 << 53
@@ -234,6 +234,16 @@ def gen_cases(module, kernel, rng, n):
             else:
                 yield {'k': kernel, 'args': None, 'trajs': trajs, 'lag': rng.choice([-1, 0, 1, 2, 2, 3, 3, 4]), 'iterative': rng.random() < 0.5,
                        'lumped': rng.random() < 0.08, 'mode': 'py'}
+        elif module in ('StateTrajEst', 'LumpedEst'):
+            ns_ = rng.randint(2, 5)
+            labs = sorted(rng.sample(range(-9, 40), ns_))
+            micro = [[labs[i] for i in _sticky(rng, rng.randint(10, 40), ns_)] for _ in range(rng.randint(1, 2))]
+            nm_ = rng.randint(1, ns_)
+            ml = rng.sample(range(-9, 50), nm_)
+            asg = [rng.randrange(nm_) for _ in range(ns_)]
+            lump = dict(zip(labs, [ml[a_] for a_ in asg]))
+            macro = [[lump[x] for x in t] for t in micro]
+            yield {'k': kernel, 'args': None, 'micro': micro, 'macro': macro, 'positive': rng.random() < 0.5, 'lag': rng.randint(1, 3), 'mode': 'py'}
         elif module in ('StateTrajAcc', 'LumpedAcc'):
             ns_ = rng.randint(1, 6)
             cls = rng.choice(['zero', 'one', 'gapped', 'negative', 'unsorted'])
@@ -476,6 +486,33 @@ def real_one(module, case):
                 case = dict(case, _run=lambda: canon(mod._chapman_kolmogorov_test_md(obj, tmin=case['lag'], tmax=case['tmax'], steps=case['steps']), True))
         except Exception as e:  # noqa
             return {'skip': core.err_name(e)}
+    elif module in ('StateTrajEst', 'LumpedEst'):
+        import msmhelper as mh
+        fn = None
+        flag = bool(numba.config.DISABLE_JIT)
+
+        def ints(v):
+            return [[int(x) for x in t] for t in v] if isinstance(v, list) else [int(x) for x in v]
+        try:
+            micro = [np.array(t, dtype=np.int64) for t in case['micro']]
+            if module == 'StateTrajEst':
+                o1 = mh.StateTraj(micro)
+                inputs = {'args': [ints(o1._trajs), ints(o1._states), case['lag'], flag]}
+            else:
+                o1 = mh.LumpedStateTraj([np.array(t, dtype=np.int64) for t in case['macro']], micro, positive=case['positive'])
+                inputs = {'args': [ints(o1._trajs), ints(o1._states), ints(o1._macrostates), ints(o1._state_assignment), bool(o1.positive), case['lag'], flag]}
+                try:
+                    msm_i, _ = mh.msm.msm._estimate_markov_model(o1.microstate_index_trajs, case['lag'], o1.nmicrostates, o1.microstates)
+                    inputs['oracle'] = {'peq': [core.rat_str(float(v)) for v in mh.msm.peq(msm_i)]}
+                except Exception as e:  # noqa
+                    inputs['oracle'] = {'peq_err': core.err_name(e)}
+
+            def _run():
+                T, st_ = o1.estimate_markov_model(case['lag'])
+                return [[[core.rat_str(float(v)) for v in row] for row in np.asarray(T)], [int(x) for x in st_]]
+            case = dict(case, _run=_run)
+        except Exception as e:  # noqa
+            return {'skip': core.err_name(e)}
     elif module in ('StateTrajAcc', 'LumpedAcc'):
         import msmhelper as mh
         fn = None
@@ -715,7 +752,7 @@ def real_one(module, case):
                 return [int(v) for v in mod.propagate_MCMC(mh.StateTraj([np.array(a[0], dtype=np.int64)]), a[1], a[2], start=a[3])]
             finally:
                 mod._get_cummat, mod._propagate_MCMC, np.random.choice = o_cm, o_pr, o_ch
-        if module in ('MsmTimes', 'MdCompareApi', 'MdTimesApi', 'MdCoringApi', 'StateTrajAcc', 'LumpedAcc') or (module == 'MsmTests' and k != '_calc_times'):
+        if module in ('MsmTimes', 'MdCompareApi', 'MdTimesApi', 'MdCoringApi', 'StateTrajAcc', 'LumpedAcc', 'StateTrajEst', 'LumpedEst') or (module == 'MsmTests' and k != '_calc_times'):
             return case['_run']()
         if module == 'MsmCummat':
             # the function estimates its matrix from trajectories: feed the chosen matrix through a stub of the estimator
@@ -890,6 +927,9 @@ def same(case, real, gen):
         return r == flat
     if k == 'runningmean':
         return len(r) == len(g) and all(abs(Fraction(x) - Fraction(y)) <= Fraction(1, 10 ** 13) for x, y in zip(r, g))
+    if k == 'estimate_markov_model' and case.get('micro') is not None:
+        return r[1] == g[1] and len(r[0]) == len(g[0]) and all(
+            len(a_) == len(b_) and all(abs(Fraction(x) - Fraction(y)) <= Fraction(1, 10 ** 8) for x, y in zip(a_, b_)) for a_, b_ in zip(r[0], g[0]))
     if k.startswith('estimate_markov_model_'):
         return r[1] == g[1] and len(r[0]) == len(g[0]) and all(
             len(a_) == len(b_) and all(abs(Fraction(x) - Fraction(y)) <= Fraction(1, 10 ** 15) for x, y in zip(a_, b_)) for a_, b_ in zip(r[0], g[0]))
